@@ -30,6 +30,8 @@ var c11Msgs = [][]c11Seg{
 	{{0, "only text"}},
 	{{1, "$b|escapeUri"}, {0, " / "}, {1, "$b"}, {0, " / "}, {1, "$b|noAutoescape"}, {0, " / "}, {1, "$b"}},
 	{{2, "<a href=\"/x\">"}, {1, "$b"}, {2, "</a>"}, {0, " or "}, {2, "<a href=\"/y\">"}, {1, "$a"}, {2, "</a>"}},
+	{{1, "$b|truncate:1"}, {0, " / "}, {1, "$b|truncate:4"}, {0, " / "}, {1, "$b|truncate:1"}},
+	{{0, "set {lb}"}, {1, "$a"}, {0, ", "}, {1, "$b"}, {0, "{rb} {lb}{rb} end"}},
 }
 
 func c11MsgSrc(segs []c11Seg) string {
